@@ -135,7 +135,7 @@ theorem iset_keys (m : IMap) (k v : Int) :
     · have hne : ¬ k = a := fun h' => h h'.symm
       simp only [ikeys] at ih
       simp only [iset, h, ↓reduceIte, ikeys, List.map_cons, List.mem_cons, hne, false_or, ih]
-      split <;> simp
+      by_cases hk : k ∈ List.map (fun x => x.1) t <;> simp [hk]
 
 theorem iset_keys_nodup (m : IMap) (k v : Int) (h : (ikeys m).Nodup) : (ikeys (iset m k v)).Nodup := by
   rw [iset_keys]
@@ -158,64 +158,46 @@ theorem zipSet_keys_nodup (m : IMap) (ks vs : List Int) (h : (ikeys m).Nodup) : 
 theorem resolveDict_keys_nodup (names : List String) (items : List (MKey × MVal)) (acc m : IMap)
     (h : (ikeys acc).Nodup) (hr : resolveDict names items acc = .ok m) : (ikeys m).Nodup := by
   induction items generalizing acc with
-  | nil => simp only [resolveDict, pure, Except.pure, Except.ok.injEq] at hr; subst hr; exact h
+  | nil => simp only [resolveDict, Except.ok.injEq] at hr; subst hr; exact h
   | cons it t ih =>
     obtain ⟨key, v⟩ := it
-    cases key with
-    | mode k =>
-      cases v with
-      | mode x => simp only [resolveDict] at hr; exact ih _ (iset_keys_nodup acc k x h) hr
-      | modes vs =>
-        simp only [resolveDict] at hr
-        split at hr
-        · cases hr
-        · exact ih _ (zipSet_keys_nodup acc _ _ h) hr
-      | str => simp only [resolveDict] at hr; cases hr
-    | port n =>
-      simp only [resolveDict] at hr
-      cases hp : resolvePortLeft names n with
-      | none => simp only [hp] at hr; cases hr
-      | some l =>
-        simp only [hp] at hr
-        cases v with
-        | mode x =>
-          simp only at hr
-          split at hr
-          · simp only at hr
-            split at hr
-            · cases hr
-            · exact ih _ (zipSet_keys_nodup acc _ _ h) hr
-          · cases hr
-        | modes vs =>
-          simp only at hr
-          split at hr
-          · cases hr
-          · exact ih _ (zipSet_keys_nodup acc _ _ h) hr
-        | str => simp only at hr; cases hr
+    simp only [resolveDict] at hr
+    cases hl : leftModes names key with
+    | none => simp [hl] at hr
+    | some l =>
+      simp only [hl] at hr
+      cases hrm : rightModes l.length v with
+      | none => simp [hrm] at hr
+      | some r =>
+        simp only [hrm] at hr
+        by_cases hlen : l.length = r.length
+        · rw [if_pos hlen] at hr
+          exact ih _ (zipSet_keys_nodup acc l r h) hr
+        · rw [if_neg hlen] at hr; cases hr
 
 theorem resolveRaw_keys_nodup (names : List String) (n : Nat) (mp : Mapping) (m : IMap)
     (hr : resolveRaw names n mp = .ok m) : (ikeys m).Nodup := by
   cases mp with
   | offset k =>
-    simp only [resolveRaw, pure, Except.pure, Except.ok.injEq] at hr
+    simp only [resolveRaw, Except.ok.injEq] at hr
     subst hr
-    simp only [ikeys, List.map_map]
-    refine (List.nodup_range (n := n)).map ?_
-    intro a b hab
-    simp only [Function.comp] at hab
-    omega
+    show (List.map (·.1) (List.map (fun i : Nat => (k + (i : Int), (i : Int))) (List.range n))).Nodup
+    rw [List.map_map]
+    exact List.Nodup.map (fun a b hab => by simp only [Function.comp] at hab; omega) List.nodup_range
   | list keys =>
     simp only [resolveRaw] at hr
-    split at hr
-    · cases hr
-    · simp only [pure, Except.pure, Except.ok.injEq] at hr
+    by_cases hl : keys.length = n
+    · rw [if_pos hl] at hr
+      simp only [Except.ok.injEq] at hr
       subst hr
       exact zipSet_keys_nodup [] _ _ (by simp [ikeys])
+    · rw [if_neg hl] at hr; cases hr
   | dict items =>
     simp only [resolveRaw] at hr
-    split at hr
-    · cases hr
-    · exact resolveDict_keys_nodup names items [] m (by simp [ikeys]) hr
+    by_cases hs : (items.any fun kv => kv.2 == MVal.str) = true
+    · rw [if_pos hs] at hr; cases hr
+    · rw [if_neg hs] at hr
+      exact resolveDict_keys_nodup names items [] m (by simp [ikeys]) hr
 
 /-! ### what a resolved mapping is -/
 
@@ -235,88 +217,775 @@ theorem connectible_iff (e : Exp) (k : Int) (h : connectible e k = true) :
     decide_eq_false_iff_not] at h
   exact ⟨h.1.1, h.1.2, h.2⟩
 
-theorem resolveAdd_resolved (aw : AWorld) (e : Exp) (mp : Mapping) (c : UC) (nm : NMap)
-    (h : resolveAdd aw e mp c = .ok nm) : Resolved aw e c nm := by
+theorem checkConsistency_none (e : Exp) (n : Nat) (m : IMap) (h : checkConsistency e n m = none) :
+    m.length = n ∧ (∀ kv ∈ m, connectible e kv.1 = true) ∧ (m.map (·.2)).Nodup := by
+  unfold checkConsistency at h
+  by_cases h1 : m.length = n
+  · rw [if_pos h1] at h
+    by_cases h2 : (m.all fun kv => connectible e kv.1) = true
+    · rw [if_pos h2] at h
+      by_cases h3 : (m.map (·.2)).Nodup
+      · exact ⟨h1, by simpa [List.all_eq_true] using h2, h3⟩
+      · rw [if_neg h3] at h; cases h
+    · rw [if_neg h2] at h; cases h
+  · rw [if_neg h1] at h; cases h
+
+theorem resolveAdd_ok (aw : AWorld) (e : Exp) (mp : Mapping) (c : UC) (nm : NMap)
+    (h : resolveAdd aw e mp c = .ok nm) :
+    ∃ m, resolveRaw (portNames e.size aw.ports) c.m mp = .ok m ∧ checkConsistency e c.m m = none ∧
+      psBlocks aw ((toNMap m).map (·.1)) = false ∧ (m.any fun kv => decide (kv.2 < 0)) = false ∧
+      IsPermList (spanLen (toNMap m)) (permVect (toNMap m)) ∧ nm = toNMap m := by
   unfold resolveAdd at h
   cases hr : resolveRaw (portNames e.size aw.ports) c.m mp with
-  | error err => simp only [hr] at h; cases h
+  | error err => simp [hr] at h
   | ok m =>
     simp only [hr] at h
     cases hc : checkConsistency e c.m m with
-    | some err => simp only [hc] at h; cases h
+    | some err => simp [hc] at h
     | none =>
       simp only [hc] at h
-      -- the consistency check
-      unfold checkConsistency at hc
-      split at hc
-      · cases hc
-      · rename_i hlen
-        split at hc
-        · cases hc
-        · rename_i hconn
-          split at hc
-          · cases hc
-          · rename_i hvals
-            have hlen' : m.length = c.m := by simpa using hlen
-            have hconn' : ∀ kv ∈ m, connectible e kv.1 = true := by
-              intro kv hkv
-              cases hcv : connectible e kv.1 with
-              | true => rfl
-              | false =>
-                exfalso; apply hconn
-                simp only [List.any_eq_true]
-                exact ⟨kv, hkv, by simp [hcv]⟩
-            have hvals' : (m.map (·.2)).Nodup := by simpa using hvals
-            split at h
-            · cases h
-            · rename_i hps
-              split at h
-              · cases h
-              · rename_i hneg
-                split at h
-                · cases h
-                · rename_i hperm
-                  simp only [pure, Except.pure, Except.ok.injEq] at h
-                  subst h
-                  have hnn : ∀ kv ∈ m, (0 : Int) ≤ kv.2 := by
-                    intro kv hkv
-                    by_contra hlt
-                    apply hneg
-                    simp only [List.any_eq_true, decide_eq_true_eq]
-                    exact ⟨kv, hkv, by omega⟩
-                  have hkeys := resolveRaw_keys_nodup _ _ _ _ hr
-                  refine ⟨by simpa using hlen', ?_, ?_, ?_, ?_, ?_, by simpa using hperm⟩
-                  · simp only [List.map_map]
-                    refine List.Nodup.map_on ?_ hkeys
-                    intro a ha b hb hab
-                    simp only [ikeys, List.mem_map] at ha hb
-                    obtain ⟨kva, hkva, rfl⟩ := ha
-                    obtain ⟨kvb, hkvb, rfl⟩ := hb
-                    have h1 := (connectible_iff e _ (hconn' kva hkva)).1
-                    have h2 := (connectible_iff e _ (hconn' kvb hkvb)).1
-                    simp only [Function.comp] at hab
-                    omega
-                  · simp only [List.map_map]
-                    refine List.Nodup.map_on ?_ hvals'
-                    intro a ha b hb hab
-                    simp only [List.mem_map] at ha hb
-                    obtain ⟨kva, hkva, rfl⟩ := ha
-                    obtain ⟨kvb, hkvb, rfl⟩ := hb
-                    have h1 := hnn kva hkva
-                    have h2 := hnn kvb hkvb
-                    simp only [Function.comp] at hab
-                    omega
-                  · intro k hk
-                    simp only [List.map_map, List.mem_map, Function.comp] at hk
-                    obtain ⟨kv, hkv, rfl⟩ := hk
-                    exact (connectible_iff e _ (hconn' kv hkv)).2.1
-                  · intro k hk
-                    simp only [List.map_map, List.mem_map, Function.comp] at hk
-                    obtain ⟨kv, hkv, rfl⟩ := hk
-                    exact (connectible_iff e _ (hconn' kv hkv)).2.2
-                  · intro conds hcd
-                    cases hcc : canCompose conds (List.map (fun x => x.1) (List.map (fun kv => (kv.1.toNat, kv.2.toNat)) m)) with
-                    | true => rfl
-                    | false => exfalso; apply hps; simp [hcd, hcc]
+      by_cases h1 : psBlocks aw ((toNMap m).map (·.1)) = true
+      · rw [if_pos h1] at h; cases h
+      · rw [if_neg h1] at h
+        by_cases h2 : (m.any fun kv => decide (kv.2 < 0)) = true
+        · rw [if_pos h2] at h; cases h
+        · rw [if_neg h2] at h
+          by_cases h3 : IsPermList (spanLen (toNMap m)) (permVect (toNMap m))
+          · rw [if_pos h3] at h
+            simp only [Except.ok.injEq] at h
+            exact ⟨m, rfl, hc, by simpa using h1, by simpa using h2, h3, h.symm⟩
+          · rw [if_neg h3] at h; cases h
+
+theorem resolveAdd_resolved (aw : AWorld) (e : Exp) (mp : Mapping) (c : UC) (nm : NMap)
+    (h : resolveAdd aw e mp c = .ok nm) : Resolved aw e c nm := by
+  obtain ⟨m, hr, hc, hps, hneg, hperm, rfl⟩ := resolveAdd_ok aw e mp c nm h
+  obtain ⟨hlen, hconn, hvals⟩ := checkConsistency_none e c.m m hc
+  have hnn : ∀ kv ∈ m, (0 : Int) ≤ kv.2 := by
+    intro kv hkv
+    by_contra hlt
+    have : (m.any fun kv => decide (kv.2 < 0)) = true := by
+      simp only [List.any_eq_true, decide_eq_true_eq]
+      exact ⟨kv, hkv, by omega⟩
+    rw [hneg] at this; cases this
+  have hkeys := resolveRaw_keys_nodup _ _ _ _ hr
+  refine ⟨by simpa [toNMap] using hlen, ?_, ?_, ?_, ?_, ?_, hperm⟩
+  · have : (toNMap m).map (·.1) = (ikeys m).map Int.toNat := by simp [toNMap, ikeys, List.map_map]
+    rw [this]
+    refine List.Nodup.map_on ?_ hkeys
+    intro a ha b hb hab
+    simp only [ikeys, List.mem_map] at ha hb
+    obtain ⟨kva, hkva, rfl⟩ := ha
+    obtain ⟨kvb, hkvb, rfl⟩ := hb
+    have h1 := (connectible_iff e _ (hconn kva hkva)).1
+    have h2 := (connectible_iff e _ (hconn kvb hkvb)).1
+    omega
+  · have : (toNMap m).map (·.2) = (m.map (·.2)).map Int.toNat := by simp [toNMap, List.map_map]
+    rw [this]
+    refine List.Nodup.map_on ?_ hvals
+    intro a ha b hb hab
+    simp only [List.mem_map] at ha hb
+    obtain ⟨kva, hkva, rfl⟩ := ha
+    obtain ⟨kvb, hkvb, rfl⟩ := hb
+    have h1 := hnn kva hkva
+    have h2 := hnn kvb hkvb
+    omega
+  · intro k hk
+    simp only [toNMap, List.map_map, List.mem_map, Function.comp] at hk
+    obtain ⟨kv, hkv, rfl⟩ := hk
+    exact (connectible_iff e _ (hconn kv hkv)).2.1
+  · intro k hk
+    simp only [toNMap, List.map_map, List.mem_map, Function.comp] at hk
+    obtain ⟨kv, hkv, rfl⟩ := hk
+    exact (connectible_iff e _ (hconn kv hkv)).2.2
+  · intro conds hcd
+    simp only [psBlocks, hcd, Bool.not_eq_false'] at hps
+    exact hps
+
+/-! ### the span of a resolved mapping fits the processor -/
+
+theorem foldl_max_lt (l : List Nat) (a N : Nat) (ha : a < N) (h : ∀ x ∈ l, x < N) : l.foldl max a < N := by
+  induction l generalizing a with
+  | nil => exact ha
+  | cons x t ih =>
+    have hx : x < N := h x (by simp)
+    exact ih (max a x) (by omega) (fun y hy => h y (List.mem_cons_of_mem _ hy))
+
+theorem span_fits (aw : AWorld) (e : Exp) (c : UC) (nm : NMap) (hr : Resolved aw e c nm) (hm : c.m ≠ 0) :
+    minL (nm.map (·.1)) + spanLen nm ≤ e.size ∧ minL (nm.map (·.1)) + c.m ≤ e.size := by
+  have hne : nm ≠ [] := by
+    intro h; have := hr.len; rw [h] at this; simp at this; exact hm this.symm
+  obtain ⟨p, hp⟩ := List.exists_mem_of_ne_nil nm hne
+  have hk : p.1 ∈ nm.map (·.1) := List.mem_map.2 ⟨p, hp, rfl⟩
+  have h1 := minL_le _ _ hk
+  have h2 := le_maxL _ _ hk
+  have hN : 0 < e.size := Nat.lt_of_le_of_lt (Nat.zero_le _) (hr.inside _ hk)
+  have h3 : maxL (nm.map (·.1)) < e.size := foldl_max_lt _ 0 _ hN hr.inside
+  have hfit : minL (nm.map (·.1)) + spanLen nm ≤ e.size := by unfold spanLen; omega
+  refine ⟨hfit, ?_⟩
+  -- pigeonhole: `c.m` distinct keys inside a span of `spanLen` modes
+  have hsub : (nm.map (·.1)).map (· - minL (nm.map (·.1))) ⊆ List.range (spanLen nm) := by
+    intro x hx
+    simp only [List.mem_map] at hx
+    obtain ⟨k, hk', rfl⟩ := hx
+    have := key_in_span nm k (by simpa using hk')
+    simp only [List.mem_range]; omega
+  have hnd : ((nm.map (·.1)).map (· - minL (nm.map (·.1)))).Nodup := by
+    refine List.Nodup.map_on ?_ hr.keysNodup
+    intro a ha b hb hab
+    have := minL_le _ a ha
+    have := minL_le _ b hb
+    omega
+  have hle := (List.subperm_of_subset hnd hsub).length_le
+  simp only [List.length_map, List.length_range] at hle
+  have := hr.len
+  omega
+
+section Inv
+variable {R : Type} [CommRing R] [StarRing R]
+
+/-! ### segments -/
+
+def segsFold (ρ : Env R) (N : Nat) (A : Matrix (Fin N) (Fin N) R) (segs : List Seg) : Matrix (Fin N) (Fin N) R :=
+  segs.foldl (fun acc s => s.mat ρ N * acc) A
+
+theorem segsFold_mul (ρ : Env R) (N : Nat) (A : Matrix (Fin N) (Fin N) R) (segs : List Seg) :
+    segsFold ρ N A segs = segsFold ρ N 1 segs * A := by
+  induction segs generalizing A with
+  | nil => simp [segsFold]
+  | cons s t ih =>
+    simp only [segsFold, List.foldl_cons] at ih ⊢
+    rw [ih (s.mat ρ N * A), ih (s.mat ρ N * 1), Matrix.mul_one, Matrix.mul_assoc]
+
+theorem segsMat_nil (ρ : Env R) (N : Nat) : segsMat ρ N [] = 1 := rfl
+
+theorem segsMat_append (ρ : Env R) (N : Nat) (a b : List Seg) :
+    segsMat ρ N (a ++ b) = segsMat ρ N b * segsMat ρ N a := by
+  show segsFold ρ N 1 (a ++ b) = segsFold ρ N 1 b * segsFold ρ N 1 a
+  simp only [segsFold, List.foldl_append]
+  exact segsFold_mul ρ N _ b
+
+theorem segsMat_single (ρ : Env R) (N : Nat) (s : Seg) : segsMat ρ N [s] = s.mat ρ N := by
+  simp [segsMat]
+
+/-! ### the invariant -/
+
+/-- the components denote the matrix the user means; a processor of 0 modes has no component and an empty reading -/
+def AInv (ρ : Env R) (st : AWorld × ASpec) : Prop :=
+  (∀ N, st.1.cw.w.size = some N → circMat ρ N st.1.cw.comps = st.2.mat ρ N) ∧
+  (st.1.cw.w.size = some 0 → st.1.cw.comps = [] ∧ st.2 = ⟨⟨none, []⟩, []⟩)
+
+theorem ainv_same (ρ : Env R) (st st' : AWorld × ASpec) (h : AInv ρ st)
+    (hs : st'.1.cw.w.size = st.1.cw.w.size) (hc : st'.1.cw.comps = st.1.cw.comps) (hp : st'.2 = st.2) :
+    AInv ρ st' := by
+  refine ⟨fun N hN => ?_, fun h0 => ?_⟩
+  · rw [hc, hp]; exact h.1 N (hs ▸ hN)
+  · rw [hc, hp]; exact h.2 (hs ▸ h0)
+
+theorem aspec_trivial_mat (ρ : Env R) (N : Nat) : (ASpec.mk ⟨none, []⟩ []).mat ρ N = 1 := by
+  simp [ASpec.mat, segsMat, Spec.mat, flatMat]
+
+/-! ### what `cstep` does to components and size -/
+
+theorem cstep_plain_frame (cw : CWorld) (op : Op) :
+    (cstep cw (.plain op)).1.comps = cw.comps ∧ (cstep cw (.plain op)).1.w.size = cw.w.size := by
+  simp only [cstep]
+  by_cases hs : op.structural = true
+  · rw [if_pos hs]; exact ⟨rfl, rfl⟩
+  · rw [if_neg hs]
+    have hcp : op.createsProcessor = false := by
+      cases op <;> simp_all [Op.structural, Op.createsProcessor]
+    exact ⟨rfl, step_size_frame cw.w op hcp⟩
+
+/-- for ANY component list there is a reading `cstep_matInv` accepts -/
+theorem matInv_exists (ρ : Env R) (cw : CWorld) : ∃ sp : Spec, MatInv ρ (cw, sp) := by
+  cases hsz : cw.w.size with
+  | none => exact ⟨⟨none, []⟩, fun N hN => by simp [hsz] at hN⟩
+  | some N₀ =>
+    refine ⟨⟨some (List.range N₀, cw.comps), []⟩, fun N hN => ?_⟩
+    simp only [hsz, Option.some.injEq] at hN
+    subst hN
+    have hperm : IsPermList N₀ (List.range N₀) :=
+      ⟨List.length_range, List.nodup_range, fun x hx => List.mem_range.1 hx⟩
+    have hid : permFn N₀ (List.range N₀) = id :=
+      permFn_identity N₀ (List.range N₀) hperm (by simp [isIdentity])
+    simp [Spec.mat, flatMat, hid]
+
+def COp.resets : COp → Bool
+  | .newRemote _ _ _ => true
+  | .convert _ _ => true
+  | .setCircuit _ _ => true
+  | _ => false
+
+/-- a constructor / `set_circuit` that succeeds: the new components denote what the call says, whatever was there -/
+theorem cstep_reset_done (ρ : Env R) (cw : CWorld) (op : COp) (hop : op.resets = true)
+    (hd : (cstep cw op).2 = .done) :
+    ∀ N, (cstep cw op).1.w.size = some N →
+      circMat ρ N (cstep cw op).1.comps = (specAfter ⟨none, []⟩ op).mat ρ N := by
+  obtain ⟨sp, hsp⟩ := matInv_exists ρ cw
+  have h := cstep_matInv ρ cw sp op hsp _ rfl
+  rw [if_pos hd] at h
+  have hs : specAfter sp op = specAfter ⟨none, []⟩ op := by
+    cases op <;> first | rfl | (simp [COp.resets] at hop)
+  rw [hs] at h
+  exact h
+
+theorem cstep_not_done (cw : CWorld) (op : COp) (hd : (cstep cw op).2 ≠ .done) :
+    (cstep cw op).1.comps = cw.comps ∧ (cstep cw op).1.w.size = cw.w.size := by
+  cases op with
+  | plain o => exact cstep_plain_frame cw o
+  | newRemote via c noise =>
+    simp only [cstep] at hd ⊢
+    by_cases hwf : c.WF
+    · rw [if_neg (not_not.2 hwf)] at hd ⊢
+      rcases step_newRemote_cases cw.w via c.m c.sym c.cparams noise with ⟨err, he⟩ | ⟨e, -, he⟩
+      · rw [he]; exact ⟨rfl, rfl⟩
+      · rw [he] at hd; exact absurd rfl hd
+    · rw [if_pos hwf]; exact ⟨rfl, rfl⟩
+  | convert p pc =>
+    simp only [cstep] at hd ⊢
+    by_cases hσ : IsPermList p.size (relabelOf p)
+    · rw [if_neg (not_not.2 hσ)] at hd ⊢
+      rcases step_convert_cases cw.w true p with ⟨err, he⟩ | ⟨e, -, he⟩
+      · rw [he]; exact ⟨rfl, rfl⟩
+      · rw [he] at hd; exact absurd rfl hd
+    · rw [if_pos hσ]; exact ⟨rfl, rfl⟩
+  | add k c =>
+    simp only [cstep] at hd ⊢
+    cases hexp : cw.w.exp with
+    | none => exact ⟨rfl, rfl⟩
+    | some e =>
+      rw [hexp] at hd
+      simp only at hd ⊢
+      by_cases hg : ¬ c.WF ∨ addOk e k c = false
+      · rw [if_pos hg]; exact ⟨rfl, rfl⟩
+      · rw [if_neg hg] at hd ⊢
+        have hsize := step_size_frame cw.w (.addComponent c.sym c.cparams) rfl
+        generalize step cw.w (.addComponent c.sym c.cparams) = sr at hsize hd ⊢
+        obtain ⟨w', o⟩ := sr
+        cases o <;> first | exact absurd rfl hd | exact ⟨rfl, hsize⟩
+  | setCircuit checked c =>
+    simp only [cstep] at hd ⊢
+    by_cases hwf : c.WF
+    · rw [if_neg (not_not.2 hwf)] at hd ⊢
+      have hsize := step_size_frame cw.w (.setCircuit checked c.m c.sym c.cparams) rfl
+      generalize step cw.w (.setCircuit checked c.m c.sym c.cparams) = sr at hsize hd ⊢
+      obtain ⟨w', o⟩ := sr
+      cases o <;> first | exact absurd rfl hd | exact ⟨rfl, hsize⟩
+    · rw [if_pos hwf]; exact ⟨rfl, rfl⟩
+
+/-! ### the mapped `add` -/
+
+theorem perm_comp_mat (ρ : Env R) (N pos : Nat) (σ : List Nat) :
+    (Comp.perm pos σ).mat ρ N = embed N pos (permMatL (R := R) σ.length σ) := by
+  simp only [Comp.mat, Comp.matV, MatV.toMatrix_ofMatrix]
+
+/-- what the components of a mapped `add` denote: the routing the user's mapping means, then the component's
+elementary components at their absolute positions -/
+theorem mappedComps_mat (ρ : Env R) (aw : AWorld) (e : Exp) (c : UC) (nm : NMap) (hr : Resolved aw e c nm)
+    (hm : c.m ≠ 0) (hwf : c.WF) :
+    circMat ρ e.size (mappedComps nm c) =
+      segsMat ρ e.size ((if isIdentity (permVect nm) then [] else [Seg.route nm]) ++
+        [Seg.leaves (shiftLeaves (minL (nm.map (·.1))) c.leaves)]) := by
+  obtain ⟨hfit, hcfit⟩ := span_fits aw e c nm hr hm
+  unfold mappedComps
+  simp only
+  by_cases hid : isIdentity (permVect nm) = true
+  · simp only [hid, if_true, List.nil_append]
+    rw [circMat_single, segsMat_single, sub_mat ρ e.size _ c hcfit hwf]
+    rfl
+  · simp only [hid, if_false, Bool.false_eq_true]
+    rw [List.singleton_append, circMat_cons, circMat_single, segsMat_append, segsMat_single, segsMat_single,
+      sub_mat ρ e.size _ c hcfit hwf, perm_comp_mat, perm_mat_eq_route e.size nm hr.perm hfit]
+    rfl
+
+/-! ### one step keeps the invariant -/
+
+theorem freshOn_cw (aw : AWorld) (r : AWorld × Out) (known : Bool) (psc : Option (List (List Nat))) :
+    (freshOn aw r known psc).1.cw = r.1.cw ∧ (freshOn aw r known psc).2 = r.2 := by
+  unfold freshOn
+  split <;> exact ⟨rfl, rfl⟩
+
+theorem pass_cw (aw : AWorld) (op : COp) : (pass aw op).1.cw = (cstep aw.cw op).1 ∧ (pass aw op).2 = (cstep aw.cw op).2 :=
+  ⟨rfl, rfl⟩
+
+theorem specAfter_resets (sp : Spec) (op : COp) (h : op.resets = true) : specAfter sp op = specAfter ⟨none, []⟩ op := by
+  cases op <;> first | rfl | (simp [COp.resets] at h)
+
+/-- a call that goes to `cstep` as a constructor / `set_circuit`, with the new size known not to be 0 when it
+succeeds -/
+theorem ainv_reset (ρ : Env R) (aw : AWorld) (asp : ASpec) (op : COp) (hop : op.resets = true)
+    (h : AInv ρ (aw, asp)) (aw' : AWorld) (o : Out) (hcw : aw'.cw = (cstep aw.cw op).1) (ho : o = (cstep aw.cw op).2)
+    (hpos : o = .done → aw'.cw.w.size ≠ some 0) :
+    AInv ρ (aw', if o = .done then ⟨specAfter asp.sp op, []⟩ else asp) := by
+  by_cases hd : o = .done
+  · rw [if_pos hd]
+    refine ⟨fun N hN => ?_, fun h0 => absurd h0 (hpos hd)⟩
+    rw [hcw] at hN ⊢
+    simp only [ASpec.mat, segsMat_nil, Matrix.one_mul]
+    rw [specAfter_resets asp.sp op hop]
+    exact cstep_reset_done ρ aw.cw op hop (ho ▸ hd) N hN
+  · rw [if_neg hd]
+    have := cstep_not_done aw.cw op (ho ▸ hd)
+    exact ainv_same ρ _ _ h (by rw [hcw]; exact this.2) (by rw [hcw]; exact this.1) rfl
+
+theorem newRemote_done_size (w : World) (via : Bool) (m circ : Nat) (cps : List String) (noise : Option Nat)
+    (h : (step w (.newRemote via m circ cps noise)).2 = .done) :
+    (step w (.newRemote via m circ cps noise)).1.size ≠ some 0 := by
+  simp only [step] at h ⊢
+  cases hn : newRemote w.pf via m circ cps noise with
+  | error err => rw [hn] at h; cases h
+  | ok e =>
+    simp only [World.size, Option.map_some, ne_eq, Option.some.injEq]
+    unfold newRemote at hn
+    simp only at hn
+    split at hn
+    · cases hn
+    · rename_i hm
+      split at hn
+      · split at hn
+        · cases hn
+        · cases hn; exact hm
+      · cases hn; exact hm
+
+theorem cstep_newRemote_done_size (cw : CWorld) (via : Bool) (c : UC) (noise : Option Nat)
+    (h : (cstep cw (.newRemote via c noise)).2 = .done) : (cstep cw (.newRemote via c noise)).1.w.size ≠ some 0 := by
+  simp only [cstep] at h ⊢
+  by_cases hwf : c.WF
+  · rw [if_neg (not_not.2 hwf)] at h ⊢
+    have hs := newRemote_done_size cw.w via c.m c.sym c.cparams noise
+    generalize step cw.w (.newRemote via c.m c.sym c.cparams noise) = sr at hs h ⊢
+    obtain ⟨w', o⟩ := sr
+    cases o <;> first | exact hs rfl | cases h
+  · rw [if_pos hwf] at h; cases h
+
+theorem cstep_convert_done_size (cw : CWorld) (p : Exp) (pc : List Comp) (hp : p.size ≠ 0)
+    (h : (cstep cw (.convert p pc)).2 = .done) : (cstep cw (.convert p pc)).1.w.size ≠ some 0 := by
+  simp only [cstep] at h ⊢
+  by_cases hσ : IsPermList p.size (relabelOf p)
+  · rw [if_neg (not_not.2 hσ)] at h ⊢
+    rcases step_convert_cases cw.w true p with ⟨err, he⟩ | ⟨e, hsz, he⟩
+    · rw [he] at h; cases h
+    · rw [he]; simp [World.size, hsz, hp]
+  · rw [if_pos hσ] at h; cases h
+
+theorem cstep_setCircuit_size (cw : CWorld) (checked : Bool) (c : UC) :
+    (cstep cw (.setCircuit checked c)).1.w.size = cw.w.size := by
+  simp only [cstep]
+  by_cases hwf : c.WF
+  · rw [if_neg (not_not.2 hwf)]
+    have hsize := step_size_frame cw.w (.setCircuit checked c.m c.sym c.cparams) rfl
+    generalize step cw.w (.setCircuit checked c.m c.sym c.cparams) = sr at hsize ⊢
+    obtain ⟨w', o⟩ := sr
+    cases o <;> exact hsize
+  · rw [if_pos hwf]
+
+theorem cstep_setCircuit_none (cw : CWorld) (checked : Bool) (c : UC) (h : cw.w.exp = none) :
+    (cstep cw (.setCircuit checked c)).2 ≠ .done := by
+  simp only [cstep]
+  by_cases hwf : c.WF
+  · rw [if_neg (not_not.2 hwf)]
+    have : step cw.w (.setCircuit checked c.m c.sym c.cparams) = (cw.w, .err .precondition) := by
+      simp [step, onExp, h]
+    rw [this]; simp
+  · rw [if_pos hwf]; simp
+
+/-- `set_circuit` on a processor whose `m` is 0 is outside the session machine's domain -/
+theorem cstep_setCircuit_m0 (cw : CWorld) (checked : Bool) (c : UC) (e : Exp) (h : cw.w.exp = some e) (hm : e.m = 0) :
+    (cstep cw (.setCircuit checked c)).2 ≠ .done := by
+  simp only [cstep]
+  by_cases hwf : c.WF
+  · rw [if_neg (not_not.2 hwf)]
+    have : step cw.w (.setCircuit checked c.m c.sym c.cparams) = (cw.w, .err .precondition) := by
+      simp [step, onExp, h, hm]; rfl
+    rw [this]; simp
+  · rw [if_pos hwf]; simp
+
+theorem size_setExp (aw : AWorld) (e : Exp) : (setExp aw e).cw.w.size = some e.size := rfl
+theorem comps_setExp (aw : AWorld) (e : Exp) : (setExp aw e).cw.comps = aw.cw.comps := rfl
+
+theorem err_ne_done (e : Err) : (Out.err e = Out.done) = False := by simp
+
+theorem ainv_base (ρ : Env R) (aw : AWorld) (asp : ASpec) (cop : COp) (h : AInv ρ (aw, asp)) :
+    ∀ r, astepBase aw cop = r → AInv ρ (r.1, if r.2 = .done then aspecAfter aw asp (.base cop) else asp) := by
+  intro r hr
+  cases cop with
+  | newRemote via c noise =>
+    simp only [astepBase] at hr
+    subst hr
+    have hf := freshOn_cw aw (pass aw (.newRemote via c noise)) true none
+    exact ainv_reset ρ aw asp (.newRemote via c noise) rfl h _ _ hf.1 hf.2
+      (fun hd => by
+        rw [show (freshOn aw (pass aw (.newRemote via c noise)) true none).1.cw =
+          (cstep aw.cw (.newRemote via c noise)).1 from hf.1]
+        exact cstep_newRemote_done_size aw.cw via c noise (by rw [← hd]; exact hf.2.symm))
+  | convert p pc =>
+    simp only [astepBase] at hr
+    by_cases hg : p.post.isSome = true ∨ p.size = 0
+    · rw [if_pos hg] at hr; subst hr
+      simp only [err_ne_done, if_false]; exact h
+    · rw [if_neg hg] at hr; subst hr
+      have hp : p.size ≠ 0 := fun h0 => hg (Or.inr h0)
+      have hf := freshOn_cw aw (pass aw (.convert p pc)) false none
+      exact ainv_reset ρ aw asp (.convert p pc) rfl h _ _ hf.1 hf.2
+        (fun hd => by
+          rw [show (freshOn aw (pass aw (.convert p pc)) false none).1.cw = (cstep aw.cw (.convert p pc)).1 from hf.1]
+          exact cstep_convert_done_size aw.cw p pc hp (by rw [← hd]; exact hf.2.symm))
+  | add k c =>
+    simp only [astepBase] at hr; subst hr
+    simp only [err_ne_done, if_false]; exact h
+  | setCircuit checked c =>
+    simp only [astepBase] at hr
+    cases hexp : aw.cw.w.exp with
+    | none =>
+      rw [hexp] at hr; simp only at hr; subst hr
+      have hnd := cstep_setCircuit_none aw.cw checked c hexp
+      exact ainv_reset ρ aw asp (.setCircuit checked c) rfl h _ _ rfl rfl (fun hd => absurd hd hnd)
+    | some e =>
+      rw [hexp] at hr; simp only at hr
+      by_cases hz : e.size = 0
+      · rw [if_pos hz] at hr
+        by_cases hd : (pass (setExp aw (sized e c.m)) (.setCircuit checked c)).2 = .done
+        · rw [if_pos hd] at hr; subst hr
+          -- the processor takes the circuit's size first; components and reading were empty
+          have h0 : aw.cw.w.size = some 0 := by simp [World.size, hexp, hz]
+          obtain ⟨hc0, hs0⟩ := h.2 h0
+          have hin : AInv ρ (setExp aw (sized e c.m), asp) := by
+            refine ⟨fun N _ => ?_, fun _ => ⟨by rw [comps_setExp]; exact hc0, hs0⟩⟩
+            rw [comps_setExp, hc0, hs0, aspec_trivial_mat]; exact circMat_nil ρ N
+          have hcm : c.m ≠ 0 := by
+            intro hc
+            exact cstep_setCircuit_m0 (setExp aw (sized e c.m)).cw checked c (sized e c.m) rfl (by simp [sized, hc]) hd
+          exact ainv_reset ρ (setExp aw (sized e c.m)) asp (.setCircuit checked c) rfl hin _ _ rfl rfl
+            (fun _ => by
+              show (cstep (setExp aw (sized e c.m)).cw (.setCircuit checked c)).1.w.size ≠ some 0
+              rw [cstep_setCircuit_size, size_setExp]
+              simp [sized, hcm])
+        · rw [if_neg hd] at hr; subst hr
+          simp only [hd, if_false]; exact h
+      · rw [if_neg hz] at hr; subst hr
+        exact ainv_reset ρ aw asp (.setCircuit checked c) rfl h _ _ rfl rfl
+          (fun _ => by
+            show (cstep aw.cw (.setCircuit checked c)).1.w.size ≠ some 0
+            rw [cstep_setCircuit_size]; simp [World.size, hexp, hz])
+  | plain o =>
+    have hsp : aspecAfter aw asp (.base (.plain o)) = asp := rfl
+    rw [hsp, ite_self]
+    subst hr
+    have hpass : ∀ o', (pass aw (.plain o')).1.cw.comps = aw.cw.comps ∧ (pass aw (.plain o')).1.cw.w.size = aw.cw.w.size :=
+      fun o' => cstep_plain_frame aw.cw o'
+    have hframe : (astepBase aw (.plain o)).1.cw.comps = aw.cw.comps ∧
+        (astepBase aw (.plain o)).1.cw.w.size = aw.cw.w.size := by
+      simp only [astepBase, astepPlain]
+      split
+      · exact ⟨rfl, rfl⟩
+      · split
+        · exact ⟨rfl, rfl⟩
+        · exact hpass _
+      · split
+        · unfold prepareEmpty
+          split
+          · exact ⟨rfl, rfl⟩
+          · rename_i e he
+            split
+            · exact ⟨rfl, rfl⟩
+            · split
+              · exact ⟨rfl, rfl⟩
+              · split
+                · exact ⟨rfl, rfl⟩
+                · refine ⟨rfl, ?_⟩
+                  rw [size_setExp]; simp [World.size, he, syncFilterParam]
+        · exact hpass _
+      · split
+        · exact ⟨rfl, rfl⟩
+        · exact hpass _
+    exact ainv_same ρ _ _ h hframe.2 hframe.1 rfl
+
+theorem setParams_size (e : Exp) (d : List (Option String × PV)) : (setParams e d).1.size = e.size := by
+  induction d generalizing e with
+  | nil => rfl
+  | cons p t ih =>
+    obtain ⟨k, v⟩ := p
+    cases k with
+    | none => rfl
+    | some k => simp only [setParams]; rw [ih]; rfl
+
+theorem firstSize_pos (mp : Mapping) (cm n : Nat) (h : firstSize mp cm = some n) : n ≠ 0 := by
+  unfold firstSize at h
+  cases mp with
+  | offset k =>
+    simp only at h
+    split at h
+    · cases h
+    · cases h; omega
+  | list keys =>
+    simp only at h
+    split at h
+    · cases h
+    · cases h; omega
+  | dict items => cases h
+
+theorem ainv_addMapped (ρ : Env R) (aw : AWorld) (asp : ASpec) (mp : Mapping) (c : UC) (h : AInv ρ (aw, asp)) :
+    ∀ r, astep aw (.addMapped mp c) = r →
+      AInv ρ (r.1, if r.2 = .done then aspecAfter aw asp (.addMapped mp c) else asp) := by
+  intro r hr
+  simp only [astep] at hr
+  cases hexp : aw.cw.w.exp with
+  | none => rw [hexp] at hr; simp only at hr; subst hr; simp only [err_ne_done, if_false]; exact h
+  | some e0 =>
+    rw [hexp] at hr; simp only at hr
+    by_cases hg : ¬ c.WF ∨ c.m = 0 ∨ (usesPortName mp = true ∧ aw.portsKnown = false)
+    · rw [if_pos hg] at hr; subst hr; simp only [err_ne_done, if_false]; exact h
+    · rw [if_neg hg] at hr
+      have hwf : c.WF := by by_contra hn; exact hg (Or.inl hn)
+      have hcm : c.m ≠ 0 := fun h0 => hg (Or.inr (Or.inl h0))
+      cases hfs : (if e0.size = 0 then (firstSize mp c.m).map (sized e0) else some e0) with
+      | none => rw [hfs] at hr; simp only at hr; subst hr; simp only [err_ne_done, if_false]; exact h
+      | some e =>
+        rw [hfs] at hr; simp only at hr
+        -- before the call: components and reading, read at the size the call works with
+        have hpre : circMat ρ e.size aw.cw.comps = asp.mat ρ e.size ∧
+            (e.size = 0 → aw.cw.comps = [] ∧ asp = ⟨⟨none, []⟩, []⟩) := by
+          by_cases hz : e0.size = 0
+          · have h0 : aw.cw.w.size = some 0 := by simp [World.size, hexp, hz]
+            have hcs : aw.cw.comps = [] ∧ asp = ⟨⟨none, []⟩, []⟩ := h.2 h0
+            exact ⟨by rw [hcs.1, hcs.2, aspec_trivial_mat]; exact circMat_nil ρ _, fun _ => hcs⟩
+          · rw [if_neg hz] at hfs
+            have he : e0 = e := Option.some.inj hfs
+            rw [← he]
+            exact ⟨h.1 e0.size (by simp [World.size, hexp]), fun h0 => absurd h0 hz⟩
+        cases hra : resolveAdd aw e mp c with
+        | error err =>
+          rw [hra] at hr; simp only at hr; subst hr
+          simp only [err_ne_done, if_false]
+          refine ⟨fun N hN => ?_, fun h0 => ?_⟩
+          · rw [size_setExp] at hN; cases hN; rw [comps_setExp]; exact hpre.1
+          · rw [size_setExp] at h0; rw [comps_setExp]; exact hpre.2 (by simpa using h0)
+        | ok nm =>
+          rw [hra] at hr; simp only at hr; subst hr
+          have hres := resolveAdd_resolved aw e mp c nm hra
+          have hsp : aspecAfter aw asp (.addMapped mp c) =
+              { asp with segs := asp.segs ++ (if isIdentity (permVect nm) then [] else [Seg.route nm]) ++
+                  [Seg.leaves (shiftLeaves (minL (nm.map (·.1))) c.leaves)] } := by
+            simp only [aspecAfter, hexp, hfs, hra]
+          rw [if_pos rfl, hsp]
+          have hpos : e.size ≠ 0 := by
+            obtain ⟨hfit, -⟩ := span_fits aw e c nm hres hcm
+            have hne : nm ≠ [] := by
+              intro hn; have := hres.len; rw [hn] at this; simp at this; exact hcm this.symm
+            obtain ⟨p, hp⟩ := List.exists_mem_of_ne_nil nm hne
+            have := hres.inside p.1 (List.mem_map.2 ⟨p, hp, rfl⟩)
+            omega
+          refine ⟨fun N hN => ?_, fun h0 => ?_⟩
+          · have hN' : N = e.size := by
+              have : (setComps (setExp aw (addComponent e c.sym c.cparams)) (aw.cw.comps ++ mappedComps nm c)).cw.w.size =
+                  some e.size := rfl
+              rw [this] at hN; cases hN; rfl
+            subst hN'
+            show circMat ρ e.size (aw.cw.comps ++ mappedComps nm c) =
+              segsMat ρ e.size ((asp.segs ++ (if isIdentity (permVect nm) then [] else [Seg.route nm])) ++
+                [Seg.leaves (shiftLeaves (minL (nm.map (·.1))) c.leaves)]) * asp.sp.mat ρ e.size
+            have hR : segsMat ρ e.size ((asp.segs ++ (if isIdentity (permVect nm) then [] else [Seg.route nm])) ++
+                [Seg.leaves (shiftLeaves (minL (nm.map (·.1))) c.leaves)]) =
+                segsMat ρ e.size ((if isIdentity (permVect nm) then [] else [Seg.route nm]) ++
+                  [Seg.leaves (shiftLeaves (minL (nm.map (·.1))) c.leaves)]) * segsMat ρ e.size asp.segs := by
+              rw [List.append_assoc, segsMat_append]
+            rw [hR, circMat_append, hpre.1, mappedComps_mat ρ aw e c nm hres hcm hwf, Matrix.mul_assoc]
+            rfl
+          · exfalso
+            have : (setComps (setExp aw (addComponent e c.sym c.cparams)) (aw.cw.comps ++ mappedComps nm c)).cw.w.size =
+                some e.size := rfl
+            rw [this] at h0
+            exact hpos (by simpa using h0)
+
+/-- **one call keeps the invariant** -/
+theorem asstep_ainv (ρ : Env R) (st : AWorld × ASpec) (op : AOp) (h : AInv ρ st) : AInv ρ (asstep st op).1 := by
+  obtain ⟨aw, asp⟩ := st
+  cases op with
+  | base cop =>
+    have := ainv_base ρ aw asp cop h _ rfl
+    simpa [asstep, astep] using this
+  | addMapped mp c =>
+    have := ainv_addMapped ρ aw asp mp c h _ rfl
+    simpa [asstep] using this
+  | convertPS p pc conds =>
+    simp only [asstep, astep, Bool.false_eq_true, or_false]
+    by_cases hg : p.post.isNone = true ∨ p.size = 0
+    · rw [if_pos hg]; simp only [err_ne_done, if_false]; exact h
+    · rw [if_neg hg]
+      have hp : p.size ≠ 0 := fun h0 => hg (Or.inr h0)
+      have hf := freshOn_cw aw (pass aw (.convert p pc)) false
+        (some (conds.map fun c => c.map fun x => (relabelOf p).idxOf x))
+      exact ainv_reset ρ aw asp (.convert p pc) rfl h _ _ hf.1 hf.2
+        (fun hd => by
+          rw [hf.1]
+          exact cstep_convert_done_size aw.cw p pc hp (by rw [← hd]; exact hf.2.symm))
+  | post id conds =>
+    have hfr := cstep_plain_frame aw.cw (.setPost (some id))
+    simp only [asstep, astep, Bool.false_eq_true, or_false]
+    have hsp : aspecAfter aw asp (.post id conds) = asp := rfl
+    rw [hsp, ite_self]
+    split
+    · exact ainv_same ρ _ _ h hfr.2 hfr.1 rfl
+    · exact ainv_same ρ _ _ h hfr.2 hfr.1 rfl
+  | clearPost =>
+    have hfr := cstep_plain_frame aw.cw (.setPost none)
+    simp only [asstep, astep, Bool.false_eq_true, or_false]
+    have hsp : aspecAfter aw asp .clearPost = asp := rfl
+    rw [hsp, ite_self]
+    split
+    · exact ainv_same ρ _ _ h hfr.2 hfr.1 rfl
+    · exact ainv_same ρ _ _ h hfr.2 hfr.1 rfl
+  | addPort mode name size =>
+    simp only [asstep, astep, Bool.false_eq_true, or_false]
+    have hsp : aspecAfter aw asp (.addPort mode name size) = asp := rfl
+    rw [hsp, ite_self]
+    split
+    · exact h
+    · split
+      · exact h
+      · split
+        · exact h
+        · exact ainv_same ρ _ _ h rfl rfl rfl
+  | setParams d =>
+    simp only [asstep, astep, Bool.false_eq_true, or_false]
+    have hsp : aspecAfter aw asp (.setParams d) = asp := rfl
+    rw [hsp, ite_self]
+    split
+    · exact h
+    · rename_i e he
+      have hsz : (setExp aw (setParams e d).1).cw.w.size = aw.cw.w.size := by
+        rw [size_setExp, setParams_size]; simp [World.size, he]
+      split
+      · rename_i e' err heq
+        have : e' = (setParams e d).1 := by rw [heq]
+        subst this
+        exact ainv_same ρ _ _ h hsz rfl rfl
+      · rename_i e' heq
+        have : e' = (setParams e d).1 := by rw [heq]
+        subst this
+        exact ainv_same ρ _ _ h hsz rfl rfl
+  | thresholded v =>
+    simp only [asstep, astep, Bool.false_eq_true, or_false]
+    have hsp : aspecAfter aw asp (.thresholded v) = asp := rfl
+    rw [hsp, ite_self]
+    split
+    · exact h
+    · rename_i e he
+      split
+      · exact h
+      · exact ainv_same ρ _ _ h (by rw [size_setExp]; simp [World.size, he, setParam]) rfl rfl
+  | clearAll newM sym =>
+    simp only [asstep, astep]
+    cases hexp : aw.cw.w.exp with
+    | none => simp only [Option.isSome_none, Bool.false_eq_true, or_false, err_ne_done, if_false]; exact h
+    | some e =>
+      simp only [Option.isSome_some, or_true, if_true]
+      have hsp : aspecAfter aw asp (.clearAll newM sym) = ⟨⟨none, []⟩, []⟩ := rfl
+      rw [hsp]
+      have key : ∀ aw' : AWorld, aw'.cw.comps = [] → AInv ρ (aw', (⟨⟨none, []⟩, []⟩ : ASpec)) := by
+        intro aw' hc
+        refine ⟨fun N _ => ?_, fun _ => ⟨hc, rfl⟩⟩
+        rw [hc, aspec_trivial_mat]; exact circMat_nil ρ N
+      cases newM with
+      | none => exact key _ rfl
+      | some i =>
+        simp only
+        split
+        · exact key _ rfl
+        · exact key _ rfl
+
+end Inv
+
+/-! ### what `astep` leaves to `cstep` -/
+
+theorem astep_delegate (aw : AWorld) (op : AOp) (cop : COp) (h : op.delegate aw = some cop) :
+    (astep aw op).1.cw = (cstep aw.cw cop).1 ∧ (astep aw op).2 = (cstep aw.cw cop).2 := by
+  cases op with
+  | base bop =>
+    cases bop with
+    | newRemote via c noise =>
+      simp only [AOp.delegate, Option.some.injEq] at h; subst h
+      exact freshOn_cw aw (pass aw (.newRemote via c noise)) true none
+    | convert p pc =>
+      simp only [AOp.delegate] at h
+      by_cases hg : p.post.isSome = true ∨ p.size = 0
+      · rw [if_pos hg] at h; cases h
+      · rw [if_neg hg] at h; cases h
+        simp only [astep, astepBase, if_neg hg]
+        exact freshOn_cw aw (pass aw (.convert p pc)) false none
+    | add k c => simp [AOp.delegate] at h
+    | setCircuit checked c =>
+      simp only [AOp.delegate] at h
+      by_cases hg : emptyProc aw = true
+      · rw [if_pos hg] at h; cases h
+      · rw [if_neg hg] at h; cases h
+        simp only [astep, astepBase]
+        cases hexp : aw.cw.w.exp with
+        | none => exact ⟨rfl, rfl⟩
+        | some e =>
+          have hz : ¬ e.size = 0 := by
+            intro h0; apply hg; simp [emptyProc, hexp, h0]
+          simp only [if_neg hz]; exact ⟨rfl, rfl⟩
+    | plain o =>
+      simp only [AOp.delegate] at h
+      simp only [astep, astepBase, astepPlain]
+      split at h
+      · cases h
+      · split at h
+        · cases h
+        · cases h; rename_i hg; rw [if_neg hg]; exact ⟨rfl, rfl⟩
+      · split at h
+        · cases h
+        · cases h; rename_i hg; rw [if_neg hg]; exact ⟨rfl, rfl⟩
+      · split at h
+        · cases h
+        · cases h
+          rename_i hne1 hne2 hne3 hg
+          split
+          · rename_i hc; exact absurd hc hg
+          · exact ⟨rfl, rfl⟩
+  | convertPS p pc conds =>
+    simp only [AOp.delegate] at h
+    by_cases hg : p.post.isNone = true ∨ p.size = 0
+    · rw [if_pos hg] at h; cases h
+    · rw [if_neg hg] at h; cases h
+      simp only [astep, if_neg hg]
+      exact freshOn_cw aw (pass aw (.convert p pc)) false _
+  | post id conds =>
+    simp only [AOp.delegate, Option.some.injEq] at h; subst h
+    simp only [astep]; split <;> exact ⟨rfl, rfl⟩
+  | clearPost =>
+    simp only [AOp.delegate, Option.some.injEq] at h; subst h
+    simp only [astep]; split <;> exact ⟨rfl, rfl⟩
+  | addPort mode name size => simp [AOp.delegate] at h
+  | addMapped mp c => simp [AOp.delegate] at h
+  | setParams d => simp [AOp.delegate] at h
+  | thresholded v => simp [AOp.delegate] at h
+  | clearAll newM sym => simp [AOp.delegate] at h
+
+/-! ### where a key of the user's mapping goes -/
+
+theorem route_key (aw : AWorld) (e : Exp) (c : UC) (nm : NMap) (hr : Resolved aw e c nm) (hm : c.m ≠ 0)
+    (k v : Nat) (h : (k, v) ∈ nm) :
+    ∃ (hk : k < e.size) (hv : minL (nm.map (·.1)) + v < e.size),
+      routeFn e.size nm ⟨k, hk⟩ = ⟨minL (nm.map (·.1)) + v, hv⟩ := by
+  have hkm : k ∈ nm.map (·.1) := List.mem_map.2 ⟨(k, v), h, rfl⟩
+  have hk : k < e.size := hr.inside k hkm
+  obtain ⟨hfit, -⟩ := span_fits aw e c nm hr hm
+  obtain ⟨h1, h2⟩ := key_in_span nm k hkm
+  have hget : nget nm k = some v := nget_of_mem nm hr.keysNodup k v h
+  have hsv : spanVal nm (k - minL (nm.map (·.1))) = v := by
+    unfold spanVal
+    rw [show minL (nm.map (·.1)) + (k - minL (nm.map (·.1))) = k by omega, hget]
+  have hlt := permVect_lt nm hr.perm (k - minL (nm.map (·.1))) (by omega)
+  rw [hsv] at hlt
+  have hv : minL (nm.map (·.1)) + v < e.size := by omega
+  refine ⟨hk, hv, ?_⟩
+  unfold routeFn
+  have hc : minL (nm.map (·.1)) ≤ k ∧ k < minL (nm.map (·.1)) + spanLen nm ∧
+      minL (nm.map (·.1)) + spanVal nm (k - minL (nm.map (·.1))) < e.size := ⟨h1, h2, by rw [hsv]; exact hv⟩
+  rw [dif_pos hc]
+  apply Fin.ext
+  simp only [hsv]
 
 end PM.C16
